@@ -107,8 +107,8 @@ theorem ord_step (hist : List Ev) (s : S) (e : Ev) (s' : S) (I : Ord hist s) (h 
   unfold Ord at *
   cases e with
   | connUp sp =>
-    simp only [step, Option.some.injEq] at h; subst h
-    have hs : ∀ (s0 : S), s0.stored = s.stored → s0.batch = s.batch → s0.recQ = s0.recQ →
+    simp only [step] at h
+    have hs : ∀ (s0 : S), (∀ q, q = 0 ∨ q = 1 → storedQ q s0 = storedQ q s) → s0.batch = s.batch → s0.recQ = s0.recQ →
         OrdInv (hist ++ [Ev.connUp sp]) (requeue s0) (requeue s0).batch := by
       intro s0 e5 e6 _
       have hb : (requeue s0).batch = s0.batch := by
@@ -133,17 +133,24 @@ theorem ord_step (hist : List Ev) (s : S) (e : Ev) (s' : S) (I : Ord hist s) (h 
       unfold requeue
       generalize hd : drain (fun s it => finishFail s it) { s0 with ackQ := [], recQ := [], compQ := [] }
         (s0.compQ.map fun x => Item.compI x.1 x.2) = t at hk ⊢
-      have hst : t.stored = s.stored := hk.1.trans e5
+      have hst : ∀ q, q = 0 ∨ q = 1 → storedQ q t = storedQ q s := by
+        intro q hq; rw [← e5 q hq]; simp only [storedQ, hk.1]
       have haq : t.ackQ = [] := hk.2
       refine ⟨?_, ?_⟩
-      · rw [received_snoc, delivered_snoc]; simp only [List.append_nil, storedQ, hst]; exact I.q0
-      · rw [received_snoc, delivered_snoc]; simp only [List.append_nil, seq1, storedQ, hst, haq, e6, List.map_nil]
+      · rw [received_snoc, delivered_snoc]; simp only [List.append_nil, hst 0 (Or.inl rfl)]; exact I.q0
+      · rw [received_snoc, delivered_snoc]; simp only [List.append_nil, seq1, hst 1 (Or.inr rfl), haq, e6, List.map_nil]
         have := I.q1
-        simp only [seq1, storedQ] at this
+        simp only [seq1] at this
         exact List.Sublist.trans (by simp [List.append_assoc]) this
-    split
-    · exact hs s rfl rfl rfl
-    · exact hs _ rfl rfl rfl
+    split at h
+    · simp only [Option.some.injEq] at h; subst h; exact hs s (fun _ _ => rfl) rfl rfl
+    · simp only [Option.some.injEq] at h; subst h
+      refine hs _ ?_ rfl rfl
+      intro q hq; simp only [storedQ]; split
+      · rw [List.filterMap_append]
+        have : ¬ ((9 : Nat) = q) := by rcases hq with rfl | rfl <;> decide
+        simp [this]
+      · rfl
   | rxPub qos pid msg =>
     simp only [step] at h
     split at h
@@ -262,6 +269,9 @@ theorem ord_step (hist : List Ev) (s : S) (e : Ev) (s' : S) (I : Ord hist s) (h 
       simp only [seq1] at this
       exact List.Sublist.trans (by simp [List.append_assoc]) this
 
+  | subOk =>
+    simp only [step, Option.some.injEq] at h; subst h
+    exact ord_silent I rfl rfl rfl (fun q => by rw [received_snoc]; simp) (fun q => by rw [delivered_snoc]; simp)
 theorem ord_reach {tr : List Ev} {s : S} (h : run init tr = some s) : Ord tr s :=
   inv_reach Ord ⟨by simp [delivered, storedQ, init], by simp [delivered, seq1, storedQ, ackMsgs, init]⟩ ord_step tr s h
 
@@ -274,6 +284,154 @@ theorem delivered_in_arrival_order {tr : List Ev} (hacc : accepts tr = true) (pr
   obtain ⟨s1, hr1, _⟩ := run_prefix hr
   have I := ord_reach hr1
   exact ⟨List.Sublist.trans (List.sublist_append_left _ _) I.q0, List.Sublist.trans (List.sublist_append_left _ _) I.q1⟩
+
+
+
+
+/-! ### session_expired reports (C13) -/
+def stored9 (s : S) : Nat := s.stored.countP (fun x => x.1 == 9)
+
+structure ExpInv (hist : List Ev) (s : S) : Prop where
+  flag : (hist.foldl expiryStep (false, 0)).1 = s.subs
+  bound : cnt isDeliverExp hist + stored9 s ≤ (hist.foldl expiryStep (false, 0)).2
+
+theorem waitRel_9 (s : S) (pid msg : Nat) : stored9 (waitRel s pid msg) = stored9 s ∧ (waitRel s pid msg).subs = s.subs := by
+  unfold waitRel; split <;> exact ⟨rfl, rfl⟩
+
+theorem finishOk_9 (s : S) (it : Item) : stored9 (finishOk s it) = stored9 s ∧ (finishOk s it).subs = s.subs := by
+  cases it with
+  | ackI p m => simp [finishOk, stored9, List.countP_append]
+  | recI p m => exact waitRel_9 s p m
+  | compI p m => simp [finishOk, stored9, List.countP_append]
+
+theorem finishFail_9 (s : S) (it : Item) : stored9 (finishFail s it) = stored9 s ∧ (finishFail s it).subs = s.subs := by
+  cases it with
+  | ackI p m => exact ⟨rfl, rfl⟩
+  | recI p m => exact ⟨rfl, rfl⟩
+  | compI p m => exact waitRel_9 s p m
+
+theorem drain_9 (f : S → Item → S) (hf : ∀ s it, stored9 (f s it) = stored9 s ∧ (f s it).subs = s.subs) :
+    ∀ (items : List Item) (t : S), stored9 (drain f t items) = stored9 t ∧ (drain f t items).subs = t.subs := by
+  intro items; induction items with
+  | nil => intro t; exact ⟨rfl, rfl⟩
+  | cons it rest ih => intro t; simp only [drain]; have := ih (f t it); have h2 := hf t it; exact ⟨this.1.trans h2.1, this.2.trans h2.2⟩
+
+theorem requeue_9 (s : S) : stored9 (requeue s) = stored9 s ∧ (requeue s).subs = s.subs := by
+  unfold requeue
+  have := drain_9 (fun s it => finishFail s it) finishFail_9 (s.compQ.map fun x => Item.compI x.1 x.2) { s with ackQ := [], recQ := [], compQ := [] }
+  exact ⟨this.1, this.2⟩
+
+theorem exp_keep {hist : List Ev} {s s' : S} {e : Ev} (I : ExpInv hist s) (h1 : stored9 s' = stored9 s) (h2 : s'.subs = s.subs)
+    (he : ∀ st, expiryStep st e = st) (hd : isDeliverExp e = false) : ExpInv (hist ++ [e]) s' := by
+  refine ⟨?_, ?_⟩
+  · simp only [List.foldl_append, List.foldl_cons, List.foldl_nil, he, h2]; exact I.flag
+  · simp only [List.foldl_append, List.foldl_cons, List.foldl_nil, he, cnt_snoc', hd, h1]; have := I.bound; simpa using this
+
+theorem exp_step (hist : List Ev) (s : S) (e : Ev) (s' : S) (I : ExpInv hist s) (h : step s e = some s') : ExpInv (hist ++ [e]) s' := by
+  cases e with
+  | connUp sp =>
+    simp only [step] at h; split at h
+    · rename_i hsp
+      simp only [Option.some.injEq] at h; subst h
+      have := requeue_9 s
+      refine ⟨?_, ?_⟩
+      · simp only [List.foldl_append, List.foldl_cons, List.foldl_nil, expiryStep, hsp, if_true, this.2]; exact I.flag
+      · simp only [List.foldl_append, List.foldl_cons, List.foldl_nil, expiryStep, hsp, if_true, cnt_snoc', isDeliverExp, this.1]
+        have := I.bound; simpa using this
+    · rename_i hsp
+      simp only [Option.some.injEq] at h; subst h
+      have hq := requeue_9 { s with waiter := fun _ => none, subs := false, stored := if s.subs then s.stored ++ [(9, 0, 0)] else s.stored }
+      have hf := I.flag
+      refine ⟨?_, ?_⟩
+      · simp only [List.foldl_append, List.foldl_cons, List.foldl_nil, expiryStep, hsp, hq.2]; simp
+      · simp only [List.foldl_append, List.foldl_cons, List.foldl_nil, expiryStep, hsp, cnt_snoc', isDeliverExp, hq.1]
+        have hb := I.bound
+        simp only [Bool.false_eq_true, if_false, Bool.toNat_false, Nat.add_zero]
+        rw [hf]
+        cases hs : s.subs
+        · simp only [stored9, hs] at hb ⊢; simpa using hb
+        · simp only [stored9, hs, if_true, List.countP_append] at hb ⊢; simp; omega
+  | rxPub qos pid msg =>
+    simp only [step] at h
+    split at h
+    · simp only [Option.some.injEq] at h; subst h
+      exact exp_keep I (by simp [stored9, List.countP_append]) rfl (fun _ => rfl) rfl
+    · split at h
+      · simp only [Option.some.injEq] at h; subst h; exact exp_keep I rfl rfl (fun _ => rfl) rfl
+      · split at h
+        · simp only [Option.some.injEq] at h; subst h; exact exp_keep I rfl rfl (fun _ => rfl) rfl
+        · simp at h
+  | rxRel pid good =>
+    simp only [step] at h
+    split at h
+    · simp only [Option.some.injEq] at h; subst h; exact exp_keep I rfl rfl (fun _ => rfl) rfl
+    · split at h
+      · simp only [Option.some.injEq] at h; subst h; exact exp_keep I rfl rfl (fun _ => rfl) rfl
+      · simp only [Option.some.injEq] at h; subst h; exact exp_keep I rfl rfl (fun _ => rfl) rfl
+  | wr =>
+    simp only [step] at h; split at h
+    · simp at h
+    · simp only [Option.some.injEq] at h; subst h; exact exp_keep I rfl rfl (fun _ => rfl) rfl
+  | pk p0 =>
+    simp only [step] at h; split at h
+    · cases p0 with
+      | puback pid => simp only [stepPk, Option.map_eq_some_iff] at h; obtain ⟨⟨m, rest⟩, _, rfl⟩ := h; exact exp_keep I rfl rfl (fun _ => rfl) rfl
+      | pubrec pid => simp only [stepPk, Option.map_eq_some_iff] at h; obtain ⟨⟨m, rest⟩, _, rfl⟩ := h; exact exp_keep I rfl rfl (fun _ => rfl) rfl
+      | pubcomp pid => simp only [stepPk, Option.map_eq_some_iff] at h; obtain ⟨⟨m, rest⟩, _, rfl⟩ := h; exact exp_keep I rfl rfl (fun _ => rfl) rfl
+      | other => simp only [stepPk, Option.some.injEq] at h; subst h; exact exp_keep I rfl rfl (fun _ => rfl) rfl
+    · simp at h
+  | wrOk =>
+    simp only [step] at h; split at h
+    · simp only [Option.some.injEq] at h; subst h
+      have := drain_9 finishOk finishOk_9 s.batch { s with writing := false, batch := [] }
+      exact exp_keep I this.1 this.2 (fun _ => rfl) rfl
+    · simp at h
+  | wrFail =>
+    simp only [step] at h; split at h
+    · simp only [Option.some.injEq] at h; subst h
+      have := drain_9 finishFail finishFail_9 s.batch { s with writing := false, batch := [] }
+      exact exp_keep I this.1 this.2 (fun _ => rfl) rfl
+    · simp at h
+  | deliver qos pid msg =>
+    simp only [step] at h
+    split at h
+    · rename_i x rest hst
+      split at h
+      · rename_i hx; subst hx
+        simp only [Option.some.injEq] at h; subst h
+        refine ⟨?_, ?_⟩
+        · simp only [List.foldl_append, List.foldl_cons, List.foldl_nil, expiryStep]; exact I.flag
+        · simp only [List.foldl_append, List.foldl_cons, List.foldl_nil, expiryStep, cnt_snoc', isDeliverExp]
+          have hb := I.bound
+          simp only [stored9, hst, List.countP_cons] at hb ⊢
+          cases hq : (qos == 9) <;> simp [hq] at hb ⊢ <;> omega
+      · simp at h
+    · simp at h
+  | reset =>
+    simp only [step, Option.some.injEq] at h; subst h
+    refine ⟨?_, ?_⟩
+    · simp only [List.foldl_append, List.foldl_cons, List.foldl_nil, expiryStep]; exact I.flag
+    · simp only [List.foldl_append, List.foldl_cons, List.foldl_nil, expiryStep, cnt_snoc', isDeliverExp, stored9, List.countP_nil]
+      have := I.bound; simp at this ⊢; omega
+  | subOk =>
+    simp only [step, Option.some.injEq] at h; subst h
+    refine ⟨?_, ?_⟩
+    · simp only [List.foldl_append, List.foldl_cons, List.foldl_nil, expiryStep]
+    · simp only [List.foldl_append, List.foldl_cons, List.foldl_nil, expiryStep, cnt_snoc', isDeliverExp]
+      have := I.bound; simpa [stored9] using this
+
+theorem exp_reach {tr : List Ev} {s : S} (h : run init tr = some s) : ExpInv tr s :=
+  inv_reach ExpInv ⟨rfl, by simp [cnt, stored9, init]⟩ exp_step tr s h
+
+/-- **C13 on accepted event lists**: after every prefix, the number of `session_expired` reports handed to the application is at most the
+number that is due (`expiryDue`: one per reconnect with Session Present = 0 that follows a successful subscription not yet reported) -/
+theorem expired_reports_bounded {tr : List Ev} (hacc : accepts tr = true) (pre post : List Ev) (hsplit : tr = pre ++ post) :
+    cnt isDeliverExp pre ≤ expiryDue pre := by
+  obtain ⟨s, hr⟩ := (accepts_iff _).1 hacc
+  rw [hsplit] at hr
+  obtain ⟨s1, hr1, _⟩ := run_prefix hr
+  have := (exp_reach hr1).bound
+  unfold expiryDue; omega
 
 
 end Mqtt5V.Proofs.TraceIn
